@@ -42,7 +42,9 @@ TAGS = {
 FORMS = ["single", "inline", "block", "frame", "xml", "bracket"]
 EOLS = {"LF": "\n", "CRLF": "\r\n", "CR": "\r"}
 LIC_VALUES = ["MIT", "GPL-3.0-or-later", "Apache-2.0+", "GPL-2.0-or-later WITH Classpath-exception-2.0", "MIT OR Apache-2.0",
-              "MIT AND (0BSD OR ISC)", "LicenseRef-custom-1.0", "(MIT OR X11) AND LicenseRef-a.b", "CC-BY-SA-4.0 AND MIT AND 0BSD"]
+              "MIT AND (0BSD OR ISC)", "LicenseRef-custom-1.0", "(MIT OR X11) AND LicenseRef-a.b", "CC-BY-SA-4.0 AND MIT AND 0BSD",
+              # identifiers are case-sensitive: what the author wrote is what is read, also when it is not the SPDX spelling
+              "mit", "Gpl-3.0-Or-Later", "bsd-3-clause AND mit", "apache-2.0 WITH llvm-exception"]
 HOLDERS = ["Jane Doe", "Jane Doe <jane@example.com>", "Example Corp. <https://example.com>", "Zoë Müller-Lüdenscheidt", "ACME, Inc.",
            "The X Project Authors (see AUTHORS)", "Free Software Foundation Europe e.V.", "O'Neil & Sons", "名前 太郎", "a/b/c team",
            "Jane \"JD\" Doe", "Team [core]", "Ünïcode GmbH & Co. KG"]
@@ -264,7 +266,7 @@ def run_disk(case, ctx, res):
             data, exp, desc = made
             eol = EOLS[desc["eol"]].encode()
             pos = rng.choice(["start", "inside", "after", "after+snippet", "unparseable", "start+snippet", "after+snippet@boundary",
-                              "after+snippet@boundary", "inside-edge", "after-edge", "start+long", "start+long"])
+                              "after+snippet@boundary", "inside-edge", "after-edge", "start+long", "start+long", "straddle+snippet", "straddle+snippet"])
             desc = dict(desc, pos=pos)
             filler_line = b"x = 'filler filler filler filler filler filler filler'" + eol
             if pos == "start":
@@ -311,6 +313,20 @@ def run_disk(case, ctx, res):
                 # recompute so that the marker really starts `cut` bytes before the boundary
                 idx = blob.find(b"SPDX-SnippetBegin")
                 desc = dict(desc, marker_offset=idx)
+            elif pos == "straddle+snippet":
+                # a file that is read in full (snippet marker); the tagged lines lie across byte 4096, so that whatever is
+                # there - also a multi-byte character - must come through unharmed
+                head = b"# SPDX-SnippetBegin" + eol
+                d = rng.randint(1, max(1, len(data) - 1))
+                want = 4096 - d - len(head)
+                lead = filler_line * (want // len(filler_line))
+                rest = want - len(lead)
+                if 0 < rest < len(eol) + 1:
+                    lead = lead[: -len(filler_line)]
+                    rest = want - len(lead)
+                if rest:
+                    lead += b"#" + b"q" * (rest - len(eol) - 1) + eol
+                blob = head + lead + data + b"# SPDX-SnippetEnd" + eol
             elif pos == "start+long":
                 blob = data + filler_line * 120  # tags at the top of a file much longer than the window
             elif pos == "start+snippet":
@@ -337,7 +353,7 @@ def run_disk(case, ctx, res):
             got_c = {x["value"] for x in f["copyrights"]}
             if got_l != exp["lic"] or got_c != exp["cop"]:
                 key = classify(desc, "cop", got_c, exp["cop"], blob) if got_c != exp["cop"] else classify(desc, "lic", got_l, exp["lic"], blob)
-                if desc["pos"] in ("after", "after+snippet", "after+snippet@boundary", "start+snippet", "unparseable", "inside-edge", "after-edge") and not key.startswith(("lone-CR", "frame", "mirrored")):
+                if desc["pos"] in ("after", "after+snippet", "after+snippet@boundary", "start+snippet", "unparseable", "inside-edge", "after-edge", "straddle+snippet") and not key.startswith(("lone-CR", "frame", "mirrored")):
                     key = f"window:{desc['pos']}"
                 res.violation(key, f"lint --json reads licences {sorted(got_l)} copyrights {sorted(got_c)}; authored {sorted(exp['lic'])} / {sorted(exp['cop'])} ({desc})",
                               desc=desc, head=blob[:300].decode("utf-8", "replace"))
